@@ -42,7 +42,7 @@ def gen_case(r, cid, tier):
         if r.random() < 0.12:
             pr = "probe g %d %d only" % (r.choice([32, 64, 31, 33]), r.randint(1, 10 ** 6))   # block boundaries of the sparse matrix assembly
         return [pr, "dump g meta points values coef qw hsupport hint", "integ g",
-                "eval g x: @", "evalb g x: @", "hbasis g x: @", "hsparse g x: @", "weights g", "diffall g"]
+                "eval g x: @", "evalb g x: @", "hbasis g x: @", "hsparse g x: @", "hsparsenz g x: @", "weights g", "diffall g"]
     lines += ["load g " + fn()] + observe("loaded")
     nested = not (fam == "global" and spec["rule"] in gl.GLOBAL_NONNESTED)
     for _ in range(r.randint(0, 3)):
@@ -170,6 +170,14 @@ def check_obs(res, cid, spec, script, obs, stats, setcoef_expect):
                                   dict(replay, basis=j))
                     return
         stats["support_checks"] += nx * n
+    # (5b) the sparse basis through its three entry points at the same points: GetNZ count = vector overload = what Static fills
+    hz = obs.get("hsnz")
+    if hz is not None and len(hz) == 4:
+        stats["sparse_counts"] = stats.get("sparse_counts", 0) + 1
+        if not (hz[0] == hz[1] == hz[2] and hz[3] == 1):
+            viol("sparse-getnz-vs-static", "evaluateSparseHierarchicalFunctionsGetNZ announces %d non-zeros, the vector overload returns %d, Static fills %d (same entries: %s)"
+                 % (hz[0], hz[1], hz[2], bool(hz[3])))
+            return
     # (6) integrate == qw . values == coef . hint
     ig, qw, hint = obs.get("integ"), obs.get("qw"), obs.get("hint")
     if ig is not None and qw is not None and loaded_all and len(qw) == n and len(ig) == outs:
@@ -301,7 +309,7 @@ def run(res, tier, seed, replay_script=None):
                 obs_sc = dict(st.obs)
                 pend = pend_setcoef
                 pend_setcoef = ("eval", obs_sc, pend)
-            elif t[0] in ("dump", "integ", "eval", "evalb", "hbasis", "hsparse", "weights"):
+            elif t[0] in ("dump", "integ", "eval", "evalb", "hbasis", "hsparse", "hsparsenz", "weights"):
                 if st.exc is None:
                     obs.update(st.obs)
             elif t[0] == "diffall":
